@@ -22,14 +22,14 @@ EXTENDS Wire
 (* status below is what the corresponding code path answers.               *)
 (***************************************************************************)
 PreValidationRejects ==
-    {"multict", "connectver-noct-post", "connectq-post", "unknownpath", "restnoroute", "rest405",
+    {"multict", "connectver-noct-post", "connectq-post", "connectq-post-ct", "unknownpath", "restnoroute", "rest405",
      "rpc-get-notnse", "rpc-get-idem", "rpc-put", "streamtype", "bidi-http1", "grpc-http1", "badtimeout",
      "contentencoding", "unknowncomp", "unknowncodec", "restonly-norule"}
 \* refused after validation succeeded: the error is rendered in the client's protocol
 PostValidationRejects == {"leading-undecodable", "leading-truncated", "noflusher"}
 
 RejectStatus(rej) ==
-    CASE rej \in {"multict", "connectver-noct-post", "connectq-post", "streamtype", "contentencoding",
+    CASE rej \in {"multict", "connectver-noct-post", "connectq-post", "connectq-post-ct", "streamtype", "contentencoding",
                   "unknowncomp", "unknowncodec"} -> 415
       [] rej \in {"unknownpath", "restnoroute", "restonly-norule"} -> 404
       [] rej \in {"rest405", "rpc-get-notnse", "rpc-get-idem", "rpc-put"} -> 405
